@@ -73,6 +73,15 @@ def gen_case(rng, tier, avoid):
         if rng.random() < 0.3:
             w['input_chunk_size'] = rng.choice([1, 2, 3, rows])
         writes.append(w)
+        if indexed and k + 1 < nw and not user and rng.random() < 0.25:
+            # the user then assigns, explicitly, the very value this write derived from its rows: it is the user's from now on
+            from .. import values as _v
+            arr = _v.make_array((w.get('data') or {}).get('arrays', [[None, rc]])[0][1] if w.get('data') else rc)
+            sel = arr[w.get('from_idx', 0) or 0: w.get('to_idx')]
+            if sel.shape[0] > 0 and sel.dtype.kind == 'f' and not (sel != sel).any():
+                which = rng.choice(['index_min', 'index_max'])
+                val = float(sel.min() if which == 'index_min' else sel.max())
+                writes.append({'set': {'attr': which, 'part': 'value', 'v': val}})
     return {'scenario': {'env': {'tz': 'UTC'}, 'history': spec.ops}, 'params': {'writes': writes, 'mode': mode,
                                                                                    'indexed': indexed}}
 
@@ -86,14 +95,21 @@ def check_case(case, ex):
     fid = C.fid_of(hist)
     stats = C.new_stats(case)
     out = []
-    wops = [dict({'op': 'write', 'fid': fid}, **w) for w in case['params']['writes']]
+    frame_h = next((op['h'] for op in hist if op.get('op') == 'add' and op.get('kind') == 'frame'), None)
+    wops = [dict({'op': 'write', 'fid': fid}, **w) if 'set' not in w else dict({'op': 'set', 'h': frame_h}, **w['set'])
+            for w in case['params']['writes']]
     sc, res = C.run(case, ex, wops, stats)
-    m = M.build(sc['history'], res['steps'])
     n0 = len(hist)
     rows = C.rows_of(hist)
     seen_windows = []
-    for k, wop in enumerate(wops):
-        st = res['steps'][n0 + k]
+    k = -1
+    for j, wop in enumerate(wops):
+        if wop['op'] != 'write':
+            C.bump(stats['probes'], 'user_assigned_value_equal_to_derived')
+            continue
+        k += 1
+        st = res['steps'][n0 + j]
+        m = M.build(sc['history'], res['steps'], upto=n0 + j)       # the specification as it was when this write was made
         if st is None or st.get('out') != 'ok' or st.get('file') is None:
             C.bump(stats['probes'], 'write_%d_failed' % (k + 1))
             continue
